@@ -231,8 +231,7 @@ def displaced(kind, wk, sk, big, min_size, first, k):
     problems = []
     if winner.error is not None:
         problems.append("C05:displaced:winner-raised:" + type(winner.error).__name__)
-    if stale.error is None:
-        problems.append("C05:displaced:stale-worker-was-not-refused")
+    # (whether the stale worker's final transition is refused is C01/C02's subject, not demanded here)
     final = observe_any(app, iid, [(w_exc, w_val), (s_exc, s_val)])
     if final:
         problems.append(final + ":after-displaced-worker-finished")
